@@ -1,5 +1,6 @@
 """C18 — no hidden shared state; read-only objects may be shared."""
 from ..mem import addr_str
+from ..ir import relpath
 from ..summary import term_str
 
 TITLE = ("Effect analysis over the whole library: (R1) every global or function-local static is constant; "
@@ -32,7 +33,7 @@ def rules(prog, an, rep, cfg="shipped", record=True):
             continue
         ng += 1
         construct = "src/%s.c:%s" % (unit, g.get("cname", gname))
-        site = "%s:%s" % (g.get("file", "src/%s.c" % unit).split("/repo/")[-1], g.get("line", "?"))
+        site = "%s:%s" % (relpath(g.get("file", "src/%s.c" % unit)), g.get("line", "?"))
         if g["constant"]:
             ok("C18.R1", construct, site, "constant global of type %s" % g["type"])
         elif g["tls"]:
@@ -46,7 +47,7 @@ def rules(prog, an, rep, cfg="shipped", record=True):
         s = an.summaries[f.key]
         nf += 1
         construct = "src/%s.c:%s" % (f.unit, f.name)
-        fsite = "%s:%s" % (f.file.split("/repo/")[-1], f.line)
+        fsite = "%s:%s" % (relpath(f.file), f.line)
         # R2 global writes
         gw = []
         for cl, cs in s.cls.items():
